@@ -37,6 +37,12 @@ lib/Trig.vos lib/Trig.vok lib/Trig.required_vos: lib/Trig.v lib/Lib.vos lib/RLib
 model/ObjChecks.vo model/ObjChecks.glob model/ObjChecks.v.beautified model/ObjChecks.required_vo: model/ObjChecks.v model/ObjModel.vo gen/ObjNames.vo gen/ObjApi.vo
 model/ObjChecks.vio: model/ObjChecks.v model/ObjModel.vio gen/ObjNames.vio gen/ObjApi.vio
 model/ObjChecks.vos model/ObjChecks.vok model/ObjChecks.required_vos: model/ObjChecks.v model/ObjModel.vos gen/ObjNames.vos gen/ObjApi.vos
+model/ObjChecksBin.vo model/ObjChecksBin.glob model/ObjChecksBin.v.beautified model/ObjChecksBin.required_vo: model/ObjChecksBin.v model/ObjModel.vo gen/ObjNames.vo gen/ObjApi.vo gen/ObjApiBin.vo model/ObjChecks.vo
+model/ObjChecksBin.vio: model/ObjChecksBin.v model/ObjModel.vio gen/ObjNames.vio gen/ObjApi.vio gen/ObjApiBin.vio model/ObjChecks.vio
+model/ObjChecksBin.vos model/ObjChecksBin.vok model/ObjChecksBin.required_vos: model/ObjChecksBin.v model/ObjModel.vos gen/ObjNames.vos gen/ObjApi.vos gen/ObjApiBin.vos model/ObjChecks.vos
+model/ObjHistory.vo model/ObjHistory.glob model/ObjHistory.v.beautified model/ObjHistory.required_vo: model/ObjHistory.v model/ObjModel.vo gen/ObjNames.vo gen/ObjApi.vo gen/ObjApiBin.vo model/ObjChecks.vo model/ObjChecksBin.vo
+model/ObjHistory.vio: model/ObjHistory.v model/ObjModel.vio gen/ObjNames.vio gen/ObjApi.vio gen/ObjApiBin.vio model/ObjChecks.vio model/ObjChecksBin.vio
+model/ObjHistory.vos model/ObjHistory.vok model/ObjHistory.required_vos: model/ObjHistory.v model/ObjModel.vos gen/ObjNames.vos gen/ObjApi.vos gen/ObjApiBin.vos model/ObjChecks.vos model/ObjChecksBin.vos
 model/ObjModel.vo model/ObjModel.glob model/ObjModel.v.beautified model/ObjModel.required_vo: model/ObjModel.v 
 model/ObjModel.vio: model/ObjModel.v 
 model/ObjModel.vos model/ObjModel.vok model/ObjModel.required_vos: model/ObjModel.v 
@@ -112,3 +118,6 @@ props/C13.vos props/C13.vok props/C13.required_vos: props/C13.v lib/Lib.vos lib/
 props/C14.vo props/C14.glob props/C14.v.beautified props/C14.required_vo: props/C14.v model/ObjModel.vo gen/ObjNames.vo gen/ObjApi.vo model/ObjChecks.vo
 props/C14.vio: props/C14.v model/ObjModel.vio gen/ObjNames.vio gen/ObjApi.vio model/ObjChecks.vio
 props/C14.vos props/C14.vok props/C14.required_vos: props/C14.v model/ObjModel.vos gen/ObjNames.vos gen/ObjApi.vos model/ObjChecks.vos
+props/C15.vo props/C15.glob props/C15.v.beautified props/C15.required_vo: props/C15.v model/ObjModel.vo gen/ObjNames.vo gen/ObjApi.vo gen/ObjApiBin.vo model/ObjChecks.vo model/ObjChecksBin.vo model/ObjHistory.vo
+props/C15.vio: props/C15.v model/ObjModel.vio gen/ObjNames.vio gen/ObjApi.vio gen/ObjApiBin.vio model/ObjChecks.vio model/ObjChecksBin.vio model/ObjHistory.vio
+props/C15.vos props/C15.vok props/C15.required_vos: props/C15.v model/ObjModel.vos gen/ObjNames.vos gen/ObjApi.vos gen/ObjApiBin.vos model/ObjChecks.vos model/ObjChecksBin.vos model/ObjHistory.vos
